@@ -14,7 +14,7 @@ import (
 
 func init() {
 	suites["limiter"] = suite{
-		rule: "C38: (1) script-level episodes on the fake: rateLimitScript with arbitrary (inc, next, cur) incl. non-monotone caller clocks, windows -50/0/1/10/1000 ms, server clock skews around the +1000 ms key expiry, huge increments (overflow) vs the faithful Lean script model; (2) sequential end-to-end: real NewRateLimiter/Check/Allow/AllowN with default and custom (limit, window) options, n in {-1,0,1,2,3,limit+1}, millisecond windows with real sleeps across window ends, against the fake; each call = one model line (arguments the glue sent, reply, Go admission rule) + one '!result' oracle line judged from the observed results only (Remaining = max(limit - requested so far in that ResetAtMs window, 0), admitted units <= limit, Check admits iff below the limit); (3) concurrent callers (goroutines) on shared identifiers, emitted in the fake's serialisation order; (4) late delivery: after a window's limit is used up one more call is stamped inside the window and delivered to the fake after the window's end; the harness also sums admitted units per (identifier, ResetAtMs); non-trivial = distinct op",
+		rule: "C38: (1) script-level episodes on the fake: rateLimitScript with arbitrary (inc, next, cur) incl. non-monotone caller clocks, windows -50/0/1/10/1000 ms, server clock skews around the +1000 ms key expiry, huge increments (overflow) vs the faithful Lean script model; (2) sequential end-to-end: real NewRateLimiter/Check/Allow/AllowN with default and custom (limit, window) options, n in {-1,0,1,2,3,limit+1}, millisecond windows with real sleeps across window ends, against the fake; each call = one model line (arguments the glue sent, reply, Go admission rule) + one '!result' oracle line judged from the observed results only (Remaining = max(limit - requested so far in that ResetAtMs window, 0), admitted units <= limit, Check admits iff below the limit, ResetAtMs not before the call was made); (2b) a window is used up, the harness sleeps past its end (inside the 1 s the keys outlive it) and the FIRST call of the new window is a Check, then Allow, then Check; (3) concurrent callers (goroutines) on shared identifiers, emitted in the fake's serialisation order; (4) late delivery: after a window's limit is used up one more call is stamped inside the window and delivered to the fake after the window's end; the harness also sums admitted units per (identifier, ResetAtMs); non-trivial = distinct op",
 		run:  runLimiter,
 		replay: func(c *Ctx, lines []string) {
 			// a replay re-executes script-level lines; end-to-end lines depend on the wall clock and are
@@ -61,6 +61,7 @@ type limCall struct {
 	custom bool
 	res    rueidislimiter.Result
 	err    error
+	before int64 // wall clock (ms) read just before the call: a lower bound of the caller's clock reading
 }
 
 func (e *limEp) call(ctx context.Context, lc *limCall) {
@@ -68,6 +69,7 @@ func (e *limEp) call(ctx context.Context, lc *limCall) {
 	if lc.custom {
 		opts = append(opts, rueidislimiter.WithCustomRateLimit(lc.limit, lc.window))
 	}
+	lc.before = time.Now().UnixMilli()
 	switch {
 	case lc.n == 0 && !lc.custom:
 		lc.res, lc.err = e.lim.Check(ctx, lc.id, opts...)
@@ -105,7 +107,16 @@ func (e *limEp) emit(c *Ctx, lc *limCall, lg *logged) {
 	a := append(append([]string{}, lg.args...), "0", "0", "0")
 	c.Emit(fmt.Sprintf("allow %s %d %d %d %s %s %d", hx(lc.id), lc.n, lc.limit, lc.window.Nanoseconds(), a[2], a[1], lg.srv), ans, true)
 	if lc.err == nil {
-		c.Emit(fmt.Sprintf("!result %s %d %d %d %d %d", hx(lc.id), lc.n, lc.limit, map[bool]int{false: 0, true: 1}[lc.res.Allowed], lc.res.Remaining, lc.res.ResetAtMs), "ok", true)
+		// a window that ended before the call was even made cannot be the window the call was counted in
+		if lc.window >= 0 && lc.res.ResetAtMs < lc.before {
+			key := "limiter:stale-window"
+			if lc.n == 0 {
+				key = "limiter:stale-window-reported-by-check"
+			}
+			c.Hit("stale-window")
+			c.Fail(key, "allow "+hx(lc.id), fmt.Sprintf("call made at >= %d (n=%d) reports ResetAtMs=%d, a window that had already ended, with Remaining=%d Allowed=%v", lc.before, lc.n, lc.res.ResetAtMs, lc.res.Remaining, lc.res.Allowed))
+		}
+		c.Emit(fmt.Sprintf("!result %s %d %d %d %d %d %d", hx(lc.id), lc.n, lc.limit, map[bool]int{false: 0, true: 1}[lc.res.Allowed], lc.res.Remaining, lc.res.ResetAtMs, lc.before), "ok", true)
 		if lc.res.Allowed && lc.n > 0 && !lc.custom {
 			k := fmt.Sprintf("%s@%d", lc.id, lc.res.ResetAtMs)
 			e.adm[k] += lc.n
@@ -205,6 +216,33 @@ func runLimiter(c *Ctx) {
 			if c.Rng.IntN(5) == 0 {
 				time.Sleep(time.Duration(1+c.Rng.IntN(3)) * time.Millisecond)
 			}
+		}
+	}
+	// (2b) a Check as the FIRST call after a window with traffic ended, inside the 1 s the keys outlive it
+	for epi := 0; epi < 4; epi++ {
+		limit := 2 + c.Rng.IntN(3)
+		window := []time.Duration{4 * time.Millisecond, 10 * time.Millisecond, 25 * time.Millisecond, 6 * time.Millisecond}[epi]
+		ep.fresh(c, limit, window)
+		one := func(id string, n int64) {
+			lc := &limCall{id: id, n: n, limit: limit, window: window}
+			ep.call(bg, lc)
+			lg := ep.srv.takeLog()
+			if len(lg) == 1 {
+				ep.emit(c, lc, &lg[0])
+			} else {
+				ep.emit(c, lc, nil)
+			}
+		}
+		for round := 0; round < 3; round++ {
+			id := fmt.Sprintf("late%d", round%2)
+			for j := 0; j < limit+1; j++ { // use the window up
+				one(id, 1)
+			}
+			time.Sleep(window + time.Duration(2+c.Rng.IntN(4))*time.Millisecond)
+			one(id, 0) // new window, nothing requested yet: Remaining = limit, Allowed
+			one(id, 1)
+			one(id, 0)
+			c.Hit("check-first-after-window-end")
 		}
 	}
 	// (3) concurrent callers
